@@ -4,7 +4,9 @@ import obl_fixed
 
 def run(c):
     # "a sign waiting for its consonant ... is discarded by one backspace" / "counts as an ongoing session": one-step obligations
-    c.only_clauses = {"backspace_discards_only_the_waiting_sign", "flag_matches_state", "nonempty_return_means_ongoing"}
+    # ... and no event that ends a word (commit, finish, ctrl-backspace, a backspace that returns nothing) leaves a sign waiting for the next word
+    c.only_clauses = {"backspace_discards_only_the_waiting_sign", "flag_matches_state", "nonempty_return_means_ongoing",
+                      "ctrl_backspace_clears", "terminating_event_leaves_fresh_state", "empty_return_means_fresh_state"}
     if c.tier == "quick":
         obl_fixed.obl_session_fixed(c, 2, 0, 1, budget_s=900)
     else:
